@@ -236,9 +236,18 @@ def seed_descriptions():
 ALPHA = list("abcxyz_ABC0123456789()[],+-> .")
 
 
+def _wrap_span(draw, toks, i):
+    """Structural mutation: put a span of 1-4 tokens starting at i into (redundant) parentheses or brackets, optionally
+    repeated by an ellipsis: nestings like "[[a b]...]" or "((a + b))" that no valid description of the corpus contains."""
+    j = min(len(toks), i + draw(st.integers(1, 4)))
+    o, c = draw(st.sampled_from([("(", ")"), ("[", "]"), ("[", "]")]))
+    toks.insert(j, c + ("..." if draw(st.integers(0, 2)) == 0 else ""))
+    toks.insert(i, o)
+
+
 @st.composite
 def text_case(draw):
-    kind = draw(st.sampled_from(["tokens", "chars", "valid", "mutated", "mutated", "deep", "seeded", "seeded"]))
+    kind = draw(st.sampled_from(["tokens", "chars", "valid", "mutated", "mutated", "deep", "seeded", "seeded", "wrapped"]))
     origin_op = None
     if kind == "tokens":
         toks = draw(st.lists(st.sampled_from(TOKENS + ["c", "ab", "a1", "_x", "10", "3", "a", "b", " ", " "]), min_size=0, max_size=24))
@@ -252,8 +261,10 @@ def text_case(draw):
             if not toks:
                 break
             i = draw(st.integers(0, len(toks) - 1))
-            m = draw(st.sampled_from(["del", "dup", "swap", "ins", "ell"]))
-            if m == "del":
+            m = draw(st.sampled_from(["del", "dup", "swap", "ins", "ell", "wrap", "wrap"]))
+            if m == "wrap":
+                _wrap_span(draw, toks, i)
+            elif m == "del":
                 toks.pop(i)
             elif m == "dup":
                 toks.insert(i, toks[i])
@@ -263,6 +274,14 @@ def text_case(draw):
                 toks.insert(i + 1, "...")
             else:
                 toks.insert(i, draw(st.sampled_from(MUT_TOKENS)))
+        s = "".join(toks)
+    elif kind == "wrapped":
+        # redundant nesting on top of a valid description: spans put into extra parentheses / brackets, with or without "..."
+        s = draw(st.sampled_from(seed_descriptions()))
+        toks = lex(s)
+        for _ in range(draw(st.integers(1, 3))):
+            if toks:
+                _wrap_span(draw, toks, draw(st.integers(0, len(toks) - 1)))
         s = "".join(toks)
     elif kind == "deep":
         d = draw(st.integers(5, 40))
@@ -284,8 +303,10 @@ def text_case(draw):
                 if not toks:
                     break
                 i = draw(st.integers(0, len(toks) - 1))
-                m = draw(st.sampled_from(["del", "dup", "swap", "ins"]))
-                if m == "del":
+                m = draw(st.sampled_from(["del", "dup", "swap", "ins", "wrap"]))
+                if m == "wrap":
+                    _wrap_span(draw, toks, i)
+                elif m == "del":
                     toks.pop(i)
                 elif m == "dup":
                     toks.insert(i, toks[i])
